@@ -82,12 +82,12 @@ def _materials(family, i, salt=0, last=False):
     return ("Custom", 25.0, 25.0)
 
 
-def make_block(name, areas, height, family="circle", salt=0):
-    """HexBlock whose components have the given hot areas (in the given order)."""
+def make_block(name, areas, height, family="circle", salt=0, cartesian=False):
+    """HexBlock (or CartesianBlock) whose components have the given hot areas (in the given order)."""
     armi_ready()
     from armi.reactor import blocks
 
-    b = blocks.HexBlock(name, height=float(height))
+    b = (blocks.CartesianBlock if cartesian else blocks.HexBlock)(name, height=float(height))
     if family == "gap":
         for c in _gap_components(name, areas):
             b.add(c)
@@ -167,26 +167,49 @@ def build_tree(tree, family="circle"):
     w.blocks = list(range(nl + 1, nl + nb + 1))
     w.asms = list(range(nl + nb + 1, nl + nb + na + 1))
 
+    # a symmetry factor of 4 exists only in a quarter-core Cartesian model whose symmetry lines run through the centre assembly
+    cart = 4 in tree["sym"].values()
+    w.cartesian = cart
     r = reactors.Reactor("c02", blueprints.Blueprints())
     core = reactors.Core("Core")
     r.add(core)
-    core.spatialGrid = grids.HexGrid.fromPitch(16.0)
-    core.spatialGrid.geomType = geometry.GeomType.HEX
-    core.spatialGrid.symmetry = str(geometry.SymmetryType(geometry.DomainType.THIRD_CORE, geometry.BoundaryType.PERIODIC))
+    if cart:
+        core.spatialGrid = grids.CartesianGrid.fromRectangle(16.0, 16.0)
+        core.spatialGrid.geomType = geometry.GeomType.CARTESIAN
+        core.spatialGrid.symmetry = geometry.SymmetryType(geometry.DomainType.QUARTER_CORE, geometry.BoundaryType.REFLECTIVE,
+                                                          throughCenterAssembly=True)
+    else:
+        core.spatialGrid = grids.HexGrid.fromPitch(16.0)
+        core.spatialGrid.geomType = geometry.GeomType.HEX
+        core.spatialGrid.symmetry = str(geometry.SymmetryType(geometry.DomainType.THIRD_CORE, geometry.BoundaryType.PERIODIC))
     core.spatialGrid.armiObject = core
+    lfps = None
+    if tree.get("withLump"):
+        # a small real LFP collection: LFP35 -> constituents with the model's yields (c = NA23 is tracked explicitly as well)
+        from armi.nucDirectory import nuclideBases
+        from armi.physics.neutronics.fissionProductModel import lumpedFissionProduct as lfpMod
+
+        lfps = lfpMod.LumpedFissionProductCollection()
+        lump = lfpMod.LumpedFissionProduct("LFP35")
+        for key, name in (("c", "NA23"), ("x", "XE135")):
+            num, den = tree["yield"][key]
+            lump[nuclideBases.byName[name]] = num / den
+        lfps["LFP35"] = lump
     w.r, w.core = r, core
     w.node[core_id] = core
 
-    interior = [(1, 0), (2, 0), (3, -1), (3, 0)]
-    edges = [(2, -1), (-1, 2)]
+    interior = [(1, 1), (2, 1), (1, 2)] if cart else [(1, 0), (2, 0), (3, -1), (3, 0)]
+    edges = [(1, 0), (0, 1)] if cart else [(2, -1), (-1, 2)]
     for ai, a_id in enumerate(w.asms):
         blks = sorted(kids[a_id])
-        a = assemblies.HexAssembly("fuel", assemNum=ai + 1)
+        a = (assemblies.CartesianAssembly if cart else assemblies.HexAssembly)("fuel", assemNum=ai + 1)
         a.spatialGrid = grids.AxialGrid.fromNCells(len(blks))
         a.spatialGrid.armiObject = a
         for b_id in blks:
             leaves = sorted(kids[b_id])
-            b = make_block("b%d" % b_id, [tree["area"][l - 1] for l in leaves], tree["height"][str(b_id)], family, salt=b_id)
+            b = make_block("b%d" % b_id, [tree["area"][l - 1] for l in leaves], tree["height"][str(b_id)], family, salt=b_id, cartesian=cart)
+            if lfps is not None:
+                b.setLumpedFissionProducts(lfps)
             a.add(b)
             w.node[b_id] = b
             for l, c in zip(leaves, b):
@@ -195,7 +218,7 @@ def build_tree(tree, family="circle"):
                 c.material.enrichedNuclide = "U235"
         a.calculateZCoords()
         sym = tree["sym"][str(blks[0])]
-        if sym == 3:
+        if sym in (3, 4):
             ij = (0, 0)
         elif sym == 2:
             if not edges:
